@@ -152,6 +152,7 @@ class Conn(object):
         self.owners = []      # weakrefs to socket objects owning the descriptor
         self.delivered = 0    # bytes handed to the library
         self.rcvlowat = 1
+        self.reset = False    # the connection was reset (a read/write failed with ECONNRESET/EPIPE): shutdown() answers ENOTCONN
 
     def buffered(self):
         return bool(self.inbox) or bool(self.record)
@@ -211,6 +212,8 @@ class FakeSocket(object):
                 k, f = f
                 if k:
                     self.w.wrote(self.conn, data[:k], True)
+            if isinstance(f, OSError) and f.errno in (errno.EPIPE, errno.ECONNRESET):
+                self.conn.reset = True
             raise f
         if self.w.split_send and len(data) > 1:
             half = len(data) // 2
@@ -226,6 +229,7 @@ class FakeSocket(object):
         if c.eof:
             return b''
         if c.err is not None:
+            c.reset = True
             raise c.err
         if not c.inbox:
             raise HarnessError('read on fake socket #%d would block (no data, no EOF)' % c.idx)
@@ -237,6 +241,7 @@ class FakeSocket(object):
         if isinstance(head, BaseException):
             c.inbox.popleft()
             c.err = head
+            c.reset = True
             raise head
         if len(head) <= n:
             c.inbox.popleft()
@@ -277,6 +282,10 @@ class FakeSocket(object):
     def shutdown(self, how):
         self.w.log(self.conn, 'shutdown', how)
         self._check_open('shutdown')
+        if self.conn.reset or self.conn.peer is None:
+            # what the kernel answers once the connection has been reset (or was never established); checked against a real
+            # loopback socket: recv -> ECONNRESET / send -> EPIPE, then shutdown(SHUT_RDWR) -> ENOTCONN
+            raise OSError(errno.ENOTCONN, 'Transport endpoint is not connected')
         self.conn.shut = True
 
     def close(self):
@@ -391,6 +400,127 @@ class FakeSelector(L_selectors.SelectorBase):
     def close(self):
         self.closed = True
         self.w.log(getattr(self._socket, 'conn', None), 'selector-close', None)
+
+
+class _ConnRef(object):
+    __slots__ = ('conn',)
+
+    def __init__(self, conn):
+        self.conn = conn
+
+
+def _fd_conn(fd):
+    w = current()
+    return w.conns[fd - 100]
+
+
+def _readiness_mask(conn):
+    """poll(2) answer for a descriptor that the world reports as ready."""
+    import select as real
+    if conn.closed:
+        return real.POLLNVAL
+    head = conn.inbox[0] if conn.inbox else None
+    if conn.err is not None or isinstance(head, BaseException):
+        return real.POLLERR | real.POLLHUP        # legal per POSIX: POLLIN need not accompany an error/hang-up
+    if conn.eof or head is _EOF:
+        return real.POLLIN | real.POLLHUP
+    return real.POLLIN
+
+
+class _FakePoll(object):
+    def __init__(self):
+        self.registered = {}
+
+    def register(self, fd, eventmask=None):
+        self.registered[fd] = eventmask
+
+    def unregister(self, fd):
+        del self.registered[fd]
+
+    def poll(self, timeout_ms=None):
+        import select as real
+        (fd, mask), = self.registered.items()
+        conn = _fd_conn(fd)
+        timeout = None if timeout_ms is None else timeout_ms / 1000.0
+        if not current().wait_readable(_ConnRef(conn), timeout):
+            return []
+        got = _readiness_mask(conn)
+        always = real.POLLERR | real.POLLHUP | real.POLLNVAL
+        got &= (mask if mask is not None else real.POLLIN | real.POLLPRI | real.POLLOUT) | always
+        return [(fd, got)] if got else []
+
+
+class _FakeKqueue(object):
+    def __init__(self):
+        self.closed = False
+        current().selectors.append(self)
+
+    def control(self, changelist, max_events, timeout=None):
+        if self.closed:
+            raise ValueError('I/O operation on closed kqueue object')
+        ev, = changelist
+        conn = _fd_conn(ev.ident)
+        return [ev] if current().wait_readable(_ConnRef(conn), timeout) else []
+
+    def close(self):
+        self.closed = True
+
+
+class _FakeKevent(object):
+    def __init__(self, ident, filter=-1, flags=1, fflags=0, data=0, udata=0):
+        self.ident, self.filter, self.flags = ident, filter, flags
+
+
+class FakeSelectModule(types.ModuleType):
+    """Bound to lomond.selectors.select: lets the *real* PollSelector / SelectSelector / KQueueSelector run in the world."""
+
+    def __init__(self):
+        super(FakeSelectModule, self).__init__('select')
+        import select as real
+        for k in dir(real):
+            if k.startswith(('POLL', 'EPOLL')):
+                setattr(self, k, getattr(real, k))
+        self.KQ_FILTER_READ = -1
+        self.error = OSError
+
+    def poll(self):
+        return _FakePoll()
+
+    def kqueue(self):
+        return _FakeKqueue()
+
+    def kevent(self, *a, **k):
+        return _FakeKevent(*a, **k)
+
+    def select(self, rlist, wlist, xlist, timeout=None):
+        fd, = rlist
+        return ([fd] if current().wait_readable(_ConnRef(_fd_conn(fd)), timeout) else []), [], []
+
+
+_TRACKED = {}
+
+
+class SelectorDispatch(object):
+    """Installed as WebsocketSession._selector_cls: builds the selector the current world asks for.  'fake' (default) simulates
+    only wait_readable; 'poll' / 'select' / 'kqueue' run lomond's real selector classes over FakeSelectModule."""
+
+    def __new__(cls, sock):
+        w = current()
+        kind = getattr(w, 'selector_kind', 'fake')
+        if kind == 'fake':
+            return FakeSelector(sock)
+        real = {'poll': L_selectors.PollSelector, 'select': L_selectors.SelectSelector, 'kqueue': L_selectors.KQueueSelector}[kind]
+        tracked = _TRACKED.get(real)
+        if tracked is None:
+            def close(self, _real=real):
+                _real.close(self)
+                self.closed = True
+                current().log(getattr(self._socket, 'conn', None), 'selector-close', None)
+            tracked = _TRACKED[real] = type(str('Tracked' + real.__name__), (real,), {'close': close, 'closed': False})
+        w.log(getattr(sock, 'conn', None), 'selector', kind)
+        sel = tracked(sock)
+        w.selectors.append(sel)
+        return sel
 
 
 # ----------------------------------------------------------------------------- locks
@@ -623,7 +753,8 @@ def install():
     L_persist.random = _persist_random
     if hasattr(L_session, 'HAS_SNI'):
         L_session.HAS_SNI = True
-    L_session.WebsocketSession._selector_cls = FakeSelector
+    L_session.WebsocketSession._selector_cls = SelectorDispatch
+    L_selectors.select = FakeSelectModule()
     L_opcode.Opcode.to_str(0)   # populate the lazy cache once so it never shows up as a state change
 
 
@@ -670,6 +801,7 @@ class World(object):
         self.addrs = addrs if addrs is not None else [('10.0.0.1', None)]
         self.conns = []
         self.selectors = []
+        self.selector_kind = 'fake'
         self.ops = []           # (index, t, conn idx, name, detail)   fault-injectable operations
         self.calls = []         # every socket-level call incl. close/shutdown
         self.faults = {}        # op index -> 'oserror' | 'valueerror' | 'eof'
@@ -762,6 +894,8 @@ class World(object):
         if f == 'oserror':
             if name == 'getaddrinfo':
                 raise _real_socket.gaierror(-2, 'Name or service not known (injected)')
+            if conn is not None and name in ('recv', 'sendall'):
+                conn.reset = True
             raise OSError(errno.ECONNRESET, 'Connection reset by peer {injected at op %d %s} {}' % (i, name))
         if f == 'valueerror':
             raise ValueError('arbitrary exception {injected at op %d %s} {0} {}' % (i, name))
